@@ -31,9 +31,10 @@ MANIFEST = dict(
          'load median; that model value increases strictly with the load median, decreases strictly with the strength median and lies in (0,1); '
          'the closed form Phi((lm-sm)/sqrt(ls^2+ss^2)) is in (0,1), increasing in load, decreasing in strength, complementary under exchange '
          'of load and strength, and tends to pf_simple_load as the load scatter vanishes; the hand-written trapezoid model of '
-         'pf_arbitrary_load lies between 0 and the trapezoid sum of the density. Per run the kernel checks by CoqInterval `integral` '
+         'pf_arbitrary_load lies between 0 and the trapezoid sum of the density on an ascending grid (refuted without `ascending`) and does not increase with the strength median for one sampled density. Per run the kernel checks by CoqInterval `integral` '
          'certificates that the implementation\'s float results agree with the closed form / models on sampled inputs (relative 1e-6 down to '
-         'P_f = 1e-12), and the relations of the property are evaluated on the implementation.',
+         'P_f = 1e-12; pf_arbitrary_load: two calls on the same arrays), and the relations of the property are evaluated on the implementation, '
+         'including sequences of calls on shared arrays / one object (arguments unmodified, repeated call identical, no dependence on the call history).',
     note=common.TB_NOTE + 'py2coq translator and its whitelist; CoqInterval (integral, interval); borrowed and NOT formalised: the Gaussian '
          'convolution identity int phi_ls(x) Phi((x-d)/ss) dx = Phi(-d/sqrt(ls^2+ss^2)) (stated as a Prop, used only as hypothesis of '
          'pf_norm_load_closed_form_partial); scipy.integrate.quad (QUADPACK) is idealised as the Riemann integral: what it really returns '
